@@ -189,8 +189,17 @@ unsafe fn copy_bytes(src: *const u8, dst: *mut u8, count: usize){
         return;
     }
 
-    for i in 0..count{
-        *dst.add(i) = *src.add(i);
+    if dst as *const u8 <= src {
+        for i in 0..count{
+            *dst.add(i) = *src.add(i);
+        }
+    } else {
+        // dst is above src: the ranges may overlap, copy backwards (like memmove).
+        let mut i = count;
+        while i != 0 {
+            i -= 1;
+            *dst.add(i) = *src.add(i);
+        }
     }
 }
 
